@@ -284,9 +284,14 @@ fn separate_rules(text: &str) -> Result<Vec<String>, String> {
     let mut num_quotes  = 0;
 
     let chrs = str_to_chars!(text);
-    for ch in chrs {
+    for (i, ch) in chrs.iter().enumerate() {
+        let ch = *ch;
         rule_str.push(ch);
-        if ch == '.' && round_depth == 0 &&
+        // A period between two digits is a decimal point (3.14), not the
+        // end of a rule.
+        let decimal_point = ch == '.' && i > 0 && i + 1 < chrs.len() &&
+            chrs[i - 1].is_ascii_digit() && chrs[i + 1].is_ascii_digit();
+        if ch == '.' && !decimal_point && round_depth == 0 &&
             square_depth == 0 && num_quotes % 2 == 0 {
             rules.push(rule_str);
             rule_str = "".to_string();
